@@ -35,7 +35,7 @@ type Opts struct {
 // Handshake runs a real zcrypto client against a real zcrypto server over a buffered in-memory transport.
 func Handshake(ccfg, scfg *tls.Config, o Opts) *Result {
 	if o.Timeout == 0 {
-		o.Timeout = 8 * time.Second
+		o.Timeout = 20 * time.Second // in-memory handshakes take milliseconds; only a hang or a starved machine gets here
 	}
 	a, b := Pipe()
 	tap := &Tap{Conn: a}
